@@ -190,7 +190,7 @@ ROUGH_TLV = KaniUnit(
                 "/\\ last offset inside the payload", kind="bounded", bound=_C12_BOUND, covers=7, mod="decoder"),
         Harness("c12_new_accepts_exactly_wide", ["C12"], "MessageView::new",
                 "acceptance only, wider window: never panics; Ok <=> the format's acceptance rule, with up to LW/8 pairs in the "
-                "header", kind="bounded", bound="every byte string of length <= {LW} (N up to {LW}/8)", covers=3, timeout=3000,
+                "header", kind="bounded", bound="every byte string of length <= {LW} (N up to {LW}/8)", covers=3, timeout=1500,
                 mod="decoder"),
         Harness("c12_new_accepts_exactly_fixed_n", ["C12"], "MessageView::new",
                 "acceptance only, one pair count: every header of exactly {NE} pairs (symbolic offsets and tags) before a "
@@ -224,7 +224,7 @@ HCOBS_KANI = KaniUnit(
                 kind="proof", timeout=600),
         Harness("c07_find_stuff_sequence_bounded", ["C07", "C01", "C02"], "find_stuff_sequence",
                 "Some(i) => FE FD at i and at no earlier index; None => at no index (the contract assumed by the Verus unit)",
-                kind="bounded", bound="every slice of length <= {L}", covers=3, timeout=3000),
+                kind="bounded", bound="every slice of length <= {L}", covers=3, timeout=1500),
     ],
 )
 
